@@ -592,6 +592,7 @@ func runC10(c *Ctx) {
 		c.add(o.Verdict, o.Construct, o.Pos, o.Detail)
 	}
 	runC10Round3(c)
+	runC10ReentrantShutdown(c)
 }
 
 // reachableFromFailure: target is reachable from the err!=nil side of the If testing call's result.
